@@ -98,4 +98,48 @@ def ownerAd (stampAtCollection : Bool) (node : Node) (svc : Svc) (info : Info) (
 def ownerWithdrawal (node : Node) (svc : Svc) (r : OwnerRace) : Msg :=
   { node := node, svc := svc, time := r.closeAt, info := ⟨0, []⟩, cancel := true }
 
+/-! ## `PacketConn.Close` against an advertisement round of the same node
+
+Both take the listener lock: the round while it collects the advertised listeners (stamping each advertisement),
+`Close` while it unregisters the socket and stamps the withdrawal.  What one does under the lock is one atomic block for
+the other.  `blocks`: the atomic blocks of `Close` in order; the round's collection happens before block `pos`
+(`pos = blocks.length`: after all of them).  The clock ticks at every stamp. -/
+
+inductive CloseAct where
+  | unregister | stampWithdrawal
+  deriving DecidableEq, Repr
+
+structure CloseSim where
+  clock : Nat := 0
+  registered : Bool := true
+  ad : Option Nat := none
+  wd : Option Nat := none
+  deriving DecidableEq, Repr
+
+def collect (s : CloseSim) : CloseSim :=
+  if s.registered then { s with ad := some s.clock, clock := s.clock + 1 } else s
+
+def act (s : CloseSim) : CloseAct → CloseSim
+  | .unregister => { s with registered := false }
+  | .stampWithdrawal => { s with wd := some s.clock, clock := s.clock + 1 }
+
+def simBlocks : List (List CloseAct) → Nat → Nat → CloseSim → CloseSim
+  | [], i, pos, s => if i ≤ pos then collect s else s
+  | b :: rest, i, pos, s =>
+    let s1 := if i = pos then collect s else s
+    simBlocks rest (i + 1) pos (b.foldl act s1)
+
+/-- the time stamps of the advertisement the round emits (if it emits one) and of the withdrawal -/
+def closeVsRound (blocks : List (List CloseAct)) (pos : Nat) : Option (Nat × Nat) :=
+  let s := simBlocks blocks 0 pos {}
+  match s.ad, s.wd with
+  | some a, some w => some (a, w)
+  | _, _ => none
+
+/-- the source's `Close`: one block under the lock — unregister, then stamp the withdrawal -/
+def closeOfSource : List (List CloseAct) := [[.unregister, .stampWithdrawal]]
+
+/-- the variant that stamps (and floods) the withdrawal before it takes the lock -/
+def closeStampFirst : List (List CloseAct) := [[.stampWithdrawal], [.unregister]]
+
 end Receptor.Ads
